@@ -229,8 +229,12 @@ func (cache *headersCache) getHeadersAndHashesByNonceAndShardId(nonce uint64, sh
 	return headers, hashes, true
 }
 
+// keys is called under the read lock of the pool, so it must not create the map of a shard that holds no header
 func (cache *headersCache) keys(shardId uint32) []uint64 {
-	shardMap := cache.getShardMap(shardId)
+	shardMap, ok := cache.headersNonceCache[shardId]
+	if !ok {
+		return make([]uint64, 0)
+	}
 
 	return shardMap.keys()
 }
